@@ -3,6 +3,7 @@ from ..lib import *
 from ..terms import TermBuilder
 from .. import codec
 
+USES_QUERIES = True
 EXPLANATION = (
     "Static rule checking over the resolved MIR of /repo. C01.1 census: every aggregate construction of an EnvelopeCase "
     "variant, of the Assertion struct and of the Envelope tuple in non-test code is located; C01.2: at each site the digest "
